@@ -18,6 +18,7 @@ from .. import au, pat
 from .common import *  # noqa
 from .common import key_of, union, class_names
 from .shared import path_conditions, enclosing
+from . import shared
 
 
 def _cls_set(repo, fi, exprs) -> Set[str]:
@@ -85,12 +86,17 @@ def check(repo: Repo, R) -> None:
     R.check(el, rule, key_of(ff, "elaborates-first"), ff.site, f"flatten() elaborates (and thereby checks) the design first: {el}", why="unresolved references and bundles reach the walker")
     miss = any(isinstance(n, ast.Raise) for n in ast.walk(top.orelse[-1])) if top.orelse else False
     notfound = False
+    KEY = None
     for n in au.walk_no_nested(fw.node):
-        if isinstance(n, ast.If) and ast.unparse(n.test) == "key in conns":
+        if isinstance(n, ast.If) and pat.match("$K in conns", n.test) is not None:
+            KEY = ast.unparse(pat.match("$K in conns", n.test)["K"])
             cur = n
             while len(cur.orelse) == 1 and isinstance(cur.orelse[0], ast.If):
                 cur = cur.orelse[0]
             notfound = au.raises(cur.orelse)
+    if KEY is None:
+        raise AnalysisError(f"idiom-unknown: lookup of the connected signal's name in the parent's map not found in {fw.site}")
+    key_is_name = shared.prov_text(fw.node, ast.parse(KEY, mode="eval").body) == "sig.name"
     R.check(notfound, rule, key_of(fw, "unknown-signal"), fw.site, f"a connection to a signal found neither in the parent's map nor in the module raises: {notfound}", why="an unknown net silently becomes a new floating net")
 
     # ---- 3 generated names unique
@@ -101,11 +107,11 @@ def check(repo: Repo, R) -> None:
     g_inst = any(isinstance(n, ast.If) and "':' in" in ast.unparse(n.test).replace('"', "'") and "inst.name" in ast.unparse(n.test) and au.raises(n.body) for n in au.walk_no_nested(fw.node))
     g_sig = False
     sig_join = None
-    for c, b in pat.find("new_sig_name = ':'.join($X)", fw.node):
-        sig_join = c
+    sig_joins = [c for c in joins if any(x is c for x in ast.walk(fw.node))]
     for n in au.walk_no_nested(fw.node):
-        if isinstance(n, ast.If) and ast.unparse(n.test).replace('"', "'") == "':' in key" and au.raises(n.body):
-            g_sig = sig_join is not None and n.lineno < sig_join.lineno
+        if isinstance(n, ast.If) and ast.unparse(n.test).replace('"', "'") == f"':' in {KEY}" and au.raises(n.body):
+            # every ':'-join of the walker that involves the signal's name happens on the non-raising side of the guard
+            g_sig = bool(sig_joins) and all(any(t is n.test and not pol for t, pol in path_conditions(fw.node, c)) for c in sig_joins)
     R.check(g_inst and g_sig, rule, key_of(fw, "separator-guard"), fw.site,
             f"every component joined by ':' is checked to contain no ':' — instance names: {g_inst}; signal names (before the path name is built): {g_sig}",
             why="a designer signal named `m:x` beside instance m with internal net x gets the same flattened name: the two nets are merged")
@@ -114,7 +120,7 @@ def check(repo: Repo, R) -> None:
     R.check(ok, rule, key_of(mk), mk.site, f"flattened instance names are the ':'-joined instance path: {ok}", why="two leaves get one name and the second replaces the first")
     path_ok = bool(pat.find("new_parents = parents + [inst]", fw.node)) and bool(pat.find("FlattenedInstance(inst, new_parents, new_conns)", fw.node))
     R.check(path_ok, rule, key_of(fw, "path"), fw.site, f"each leaf carries the full instance path from the top (parents + [inst]): {path_ok}", why="leaves of two instances of one sub-module share a name")
-    nm = bool(pat.find("new_sig_name = ':'.join([p.name for p in parents] + [key])", fw.node))
+    nm = key_is_name and bool(sig_joins) and all(pat.match(f"':'.join([$P.name for $P in parents] + [{KEY}])", c) is not None for c in sig_joins)
     R.check(nm, rule, key_of(fw, "net-name"), fw.site, f"internal nets are named <instance path>:<signal name> of the module that declares them: {nm}", why="internal nets of two instances of one sub-module are merged")
 
     # ---- 4 ports unchanged, new nets internal
@@ -122,9 +128,9 @@ def check(repo: Repo, R) -> None:
     lp = [n for n in au.walk_no_nested(ff.node) if isinstance(n, ast.For) and ast.unparse(n.iter) == "m.ports.values()"]
     ok = len(lp) == 1 and bool(pat.find("new_module.add(copy.copy(port))", lp[0]))
     R.check(ok, rule, key_of(ff, "ports"), ff.site, f"the flat module gets a copy of each of m's ports, in order: {ok}", why="ports are missing, reordered or re-directed in the flat module")
-    internal = all(bool(pat.find(f"replace(_copy_to_internal(m.{k}[key]), name=new_sig_name)", fw.node)) for k in ("signals", "ports"))
+    internal = all(bool(shared.calls_matching(fw.node, f"replace(_copy_to_internal(m.{k}[{KEY}]), name=':'.join([$P.name for $P in parents] + [{KEY}]))")) for k in ("signals", "ports"))
     R.check(internal, rule, key_of(fw, "nets-internal"), fw.site, f"nets created for lower levels are internal copies (visibility INTERNAL, no direction) of the declaring signal or port: {internal}", why="a lower-level port becomes a port of the flat module")
-    sk = any(isinstance(n, ast.If) and ast.unparse(n.test) == "sig_name not in new_module.ports" and bool(pat.find("new_module.add(copy.copy(sig))", n)) for n in au.walk_no_nested(ff.node))
+    sk = any(shared.cond_match(ff.node, c, "$S.name in new_module.ports", False, use_prov=True) and ast.unparse(shared.cond_args(ff.node, c, "$S.name in new_module.ports", False)["S"]) == ast.unparse(b["S"]) for c, b in pat.find("new_module.add(copy.copy($S))", ff.node) if enclosing(ff.node, c, (ast.For,)) is not None and ast.unparse(enclosing(ff.node, c, (ast.For,)).iter) != "m.ports.values()")
     R.check(sk, rule, key_of(ff, "no-port-shadowing"), ff.site, f"nets that are ports of the flat module are not re-added as internal signals: {sk}", why="a port is replaced by an internal signal of the same name")
     nm = bool(pat.find("h.Module(m.name + '_flat')", ff.node))
     R.check(nm, rule, key_of(ff, "name"), ff.site, f"the flat module gets its own name: {nm}", why="the flat module clashes with the original on export")
@@ -133,10 +139,10 @@ def check(repo: Repo, R) -> None:
     rule = "C16.5-connectivity-by-map"
     order_ok = False
     for n in au.walk_no_nested(fw.node):
-        if isinstance(n, ast.If) and ast.unparse(n.test) == "key in conns":
-            order_ok = ast.unparse(n.body[-1]) == "target_sig = conns[key]" and len(n.orelse) == 1 and isinstance(n.orelse[0], ast.If) and ast.unparse(n.orelse[0].test) == "key in m.signals"
+        if isinstance(n, ast.If) and ast.unparse(n.test) == f"{KEY} in conns":
+            order_ok = pat.match(f"$T = conns[{KEY}]", n.body[-1]) is not None and len(n.orelse) == 1 and isinstance(n.orelse[0], ast.If) and ast.unparse(n.orelse[0].test) == f"{KEY} in m.signals"
     R.check(order_ok, rule, key_of(fw, "parent-map-first"), fw.site, f"a child's port is resolved through the map handed down by its parent before the child's own signals: {order_ok}", why="a child's port is treated as a new internal net: the connection across the hierarchy level is cut")
-    store = bool(pat.find("new_conns[src_port_name] = target_sig", fw.node))
+    store = bool(pat.find("new_conns[src_port_name] = $T", fw.node))
     lp = [n for n in au.walk_no_nested(fw.node) if isinstance(n, ast.For) and ast.unparse(n.iter) == "inst.conns.items()"]
     tot = len(lp) == 1 and not any(isinstance(x, (ast.Break, ast.Continue)) for x in ast.walk(lp[0]))
     R.check(store and tot, rule, key_of(fw, "child-map"), fw.site, f"every connection of an instance is entered in the map handed to its target under the target's port name: {store and tot}", why="some ports of a sub-module are cut off from their parent net")
@@ -146,10 +152,19 @@ def check(repo: Repo, R) -> None:
     tot2 = len(insts) == 1 and not any(isinstance(x, (ast.Break, ast.Continue, ast.Return)) for x in ast.walk(insts[0]) if enclosing(fw.node, x, (ast.For,)) is insts[0])
     R.check(tot2, rule, key_of(fw, "every-instance"), fw.site, f"every instance of every level is visited: {tot2}", why="leaf devices are missing from the flat module")
     rec = [n for n in au.walk_no_nested(ff.node) if isinstance(n, ast.For) and ast.unparse(n.iter) == "nodes"]
-    ok = len(rec) == 2 and bool(pat.find("new_inst = new_module.add(n.inst.of(), name=n.make_name())", rec[1])) and bool(pat.find("matching_sig = _find_signal_or_port(new_module, sig.name)", rec[1])) and bool(pat.find("new_inst.connect(src_port_name, matching_sig)", rec[1]))
+    ok = False
+    if len(rec) == 2:
+        lv = ast.unparse(rec[1].target)
+        inner = [x for x in ast.walk(rec[1]) if isinstance(x, ast.For) and ast.unparse(x.iter) == f"{lv}.conns.items()" and isinstance(x.target, ast.Tuple) and len(x.target.elts) == 2]
+        if len(inner) == 1:
+            pn, sg = [ast.unparse(x) for x in inner[0].target.elts]
+            ok = bool(shared.calls_matching(ff.node, f"new_module.add({lv}.inst.of(), name={lv}.make_name()).connect({pn}, _find_signal_or_port(new_module, {sg}.name))")) or (
+                bool(pat.find(f"$NI = new_module.add({lv}.inst.of(), name={lv}.make_name())", rec[1])) and any(ast.unparse(b["NI"]) == ast.unparse(pat.find(f"$NI = new_module.add({lv}.inst.of(), name={lv}.make_name())", rec[1])[0][1]["NI"]) for c, b in pat.find(f"$NI.connect({pn}, _find_signal_or_port(new_module, {sg}.name))", inner[0])))
     R.check(ok, rule, key_of(ff, "reconnect"), ff.site, f"one new instance per leaf, each of its ports connected to the flat module's signal of the mapped net's name: {ok}", why="leaf terminals are connected to other nets than in the hierarchy")
     fs = repo.func(F_FLATTEN, "_find_signal_or_port")
-    ok = bool(pat.find("m.ports.get(name, None)", fs.node)) and bool(pat.find("m.signals.get(name, None)", fs.node)) and au.raises(fs.node.body)
+    frets = shared.returns_of(fs.node)
+    ok = {shared.prov_text(fs.node, r.value) for r in frets} == {"m.ports.get(name)", "m.signals.get(name)"} and len(shared.raising_leaves(fs.node)) >= 1 and all(
+        shared.conds_imply(path_conditions(fs.node, r), [(shared.parse_cond(shared.prov_text(fs.node, r.value) + " is None"), False)]) is True or shared.cond_match(fs.node, r, shared.prov_text(fs.node, r.value) + " is None", False) for r in frets)
     R.check(ok, rule, key_of(fs), fs.site, f"nets are found by exact name among ports and signals, else it raises: {ok}", why="a missing net silently connects to None")
     R.floor("C16.1-leaf-kinds-agree", 3)
     R.floor("C16.3-generated-names-unique", 4)
